@@ -1260,7 +1260,9 @@ func (g *skGen) trapBody() []*skStmt {
 	n := 1 + g.r.Intn(2)
 	var p []*skStmt
 	for i := 0; i < n; i++ {
-		if a := g.atom(skCtx{e: g.e}); g.wildly() && a.K != "trapexit" && a.K != "traperr" {
+		// wild trap actions: any simple command except traps (quoting) and break/continue/return
+		// (their effect from inside a trap action on the interrupted loop/function is not modelled)
+		if a := g.atom(skCtx{e: g.e}); g.wildly() && a.K != "trapexit" && a.K != "traperr" && a.K != "brk" && a.K != "cont" && a.K != "ret" {
 			p = append(p, &skStmt{C: a})
 		} else if g.r.Intn(4) == 0 {
 			p = append(p, &skStmt{C: &skCmd{K: "true", Lit: "true"}})
@@ -1576,6 +1578,7 @@ func c26Res(r ShellResult) string {
 func c26Witness(text string) string { return "sh:" + strconv.Quote(text) }
 
 type c26Case struct {
+	wild      int
 	text      string
 	prog      []*skStmt
 	sexp      string
@@ -1646,6 +1649,15 @@ func c26(c *Ctx) {
 					}
 				})
 			}
+			// break/continue/return inside a trap action act on the interrupted loop/function in
+			// bash; BashSem confines them to the action
+			if s.C.K == "trapexit" || s.C.K == "traperr" {
+				skWalk(s.C.P, func(t *skStmt) {
+					if t.C.K == "brk" || t.C.K == "cont" || t.C.K == "ret" {
+						cs.racy = true
+					}
+				})
+			}
 			if s.Neg {
 				skWalk([]*skStmt{{C: s.C}}, func(t *skStmt) {
 					if t.C.K == "traperr" && len(t.C.P) > 0 {
@@ -1705,9 +1717,11 @@ func c26(c *Ctx) {
 		if g.wild > 0 {
 			mode = "gen-wild"
 		}
-		if addText(text, false, mode) == nil {
+		cs := addText(text, false, mode)
+		if cs == nil {
 			panic("C26 generator produced a program outside its own skeleton: " + text)
 		}
+		cs.wild = g.wild
 	}
 
 	// run interp on everything (in-process, fast)
@@ -1757,8 +1771,10 @@ func c26(c *Ctx) {
 		if cs.forceBash || cs.racy || nb >= bashBudget {
 			continue
 		}
-		// two thirds supported programs (search leg), one third anything (spec validation)
-		if cs.sup || nb%3 == 2 {
+		// two thirds supported programs (search leg), one third unsupported ones with few
+		// unsupported features (spec validation; programs piling up several exotic constructs
+		// mostly test bash corner cases nobody claims BashSem covers)
+		if cs.sup || (nb%3 == 2 && cs.wild <= 3) {
 			bashIdx = append(bashIdx, i)
 			nb++
 		}
